@@ -30,7 +30,7 @@ struct Rec { rtype: u16, class: u16, ttl: u32, id: u32, bad: bool }
 /// `broken`: walking the sections failed (what was readable up to there is kept);
 /// a record is `bad` when its header parses but its RDATA does not parse as its type.
 #[derive(Clone, Debug)]
-struct RMsg { id: u16, rcode: u16, aa: bool, tc: bool, rd: bool, ad: bool, q: Option<(u16, u16)>, secs: [Vec<Rec>; 3], broken: bool }
+struct RMsg { id: u16, rcode: u16, aa: bool, tc: bool, rd: bool, ad: bool, q: Option<(u16, u16)>, qcase: u32, secs: [Vec<Rec>; 3], broken: bool }
 impl RMsg { fn has_bad(&self) -> bool { self.secs.iter().any(|s| s.iter().any(|r| r.bad)) } }
 
 #[derive(Clone, Debug)]
@@ -61,10 +61,18 @@ fn fnv32(s: &str) -> u32 {
 
 fn hexs(b: &[u8]) -> String { b.iter().map(|x| format!("{:02x}", x)).collect() }
 
+/// which spelling (case variant) of a known name this is: index in NAMES + 1, 99 = none of them
+fn spelling(name: &str) -> u32 {
+    let n = name.trim_end_matches('.');
+    NAMES.iter().position(|(s, _)| s.trim_end_matches('.') == n).map_or(99, |i| i as u32 + 1)
+}
+
 fn render_msg(m: &Message<Bytes>) -> RMsg {
     let h = m.header();
-    let mut out = RMsg { id: h.id(), rcode: m.opt_rcode().to_int(), aa: h.aa(), tc: h.tc(), rd: h.rd(), ad: h.ad(), q: None, secs: [vec![], vec![], vec![]], broken: false };
-    out.q = match m.question().next() { Some(Ok(q)) => Some((q.qtype().to_int(), q.qclass().to_int())), Some(Err(_)) => { out.broken = true; return out; } None => None };
+    let mut out = RMsg { id: h.id(), rcode: m.opt_rcode().to_int(), aa: h.aa(), tc: h.tc(), rd: h.rd(), ad: h.ad(), q: None, qcase: 0, secs: [vec![], vec![], vec![]], broken: false };
+    out.q = match m.question().next() {
+        Some(Ok(q)) => { out.qcase = spelling(&format!("{}", q.qname())); Some((q.qtype().to_int(), q.qclass().to_int())) }
+        Some(Err(_)) => { out.broken = true; return out; } None => None };
     let mut sec = match m.answer() { Ok(s) => s, Err(_) => { out.broken = true; return out; } };
     for i in 0..3 {
         for rr in &mut sec {
@@ -98,8 +106,8 @@ fn resp_case(r: &RResp) -> String {
     match r {
         RResp::Err(c) => format!("e {}", c),
         RResp::Msg(m) => {
-            let mut s = format!("m {} {} {} {} {} {} {}", m.id, m.rcode, flags_word(m) | (m.broken as u32) << 4,
-                m.q.map_or("-".to_string(), |(t, c)| format!("{}:{}", t, c)), m.secs[0].len(), m.secs[1].len(), m.secs[2].len());
+            let mut s = format!("m {} {} {} {} {} {} {} {}", m.id, m.rcode, flags_word(m) | (m.broken as u32) << 4,
+                m.q.map_or("-".to_string(), |(t, c)| format!("{}:{}", t, c)), m.qcase, m.secs[0].len(), m.secs[1].len(), m.secs[2].len());
             for sec in &m.secs { for r in sec { s.push(' '); s.push_str(&rec_case(r)); } }
             s
         }
@@ -111,7 +119,7 @@ fn resp_obs(r: &RResp) -> String {
         RResp::Err(c) => format!("e{}", c),
         RResp::Msg(m) => {
             let sec = |l: &Vec<Rec>| format!("[{}]", l.iter().map(rec_word).collect::<Vec<_>>().join(" "));
-            format!("m {} {} {} {} {} {}", m.id, m.rcode, flags_word(m), sec(&m.secs[0]), sec(&m.secs[1]), sec(&m.secs[2]))
+            format!("m {} {} {} {} {} {} {}", m.id, m.rcode, flags_word(m), m.qcase, sec(&m.secs[0]), sec(&m.secs[1]), sec(&m.secs[2]))
         }
     }
 }
@@ -134,7 +142,8 @@ enum RespSpec { Err(u8), Msg { rcode: u8, aa: bool, tc: bool, ad: bool, noq: boo
 struct QSpec { name: usize, class: u16, rtype: u16, rd: bool, cd: bool, ad: bool, do_: bool, opcode: u8 }
 
 #[derive(Clone, Debug)]
-struct Ev { gap_ms: u64, q: QSpec, resp: RespSpec, delay_ms: u64 }
+/// `hold_ms`: the clock advance between send_request() and get_response().await of this request
+struct Ev { gap_ms: u64, q: QSpec, resp: RespSpec, delay_ms: u64, hold_ms: u64 }
 
 #[derive(Clone, Debug)]
 struct Cfg { raw: [u64; 6], trunc: bool, entries: Option<u64>, honest: bool, dflt: bool }
@@ -188,7 +197,9 @@ impl QObs {
 struct LogEntry { q: QObs, req_id: u16, t_ms: u64, resp: RResp, raw: Option<Bytes>, delay_ms: u64 }
 
 /// `next`: what to answer (and after how long) to the request with the given header ID
-struct MockState { next: HashMap<u16, (RespSpec, u64)>, log: Vec<LogEntry>, honest: bool, t0: tokio::time::Instant }
+struct MockState { next: HashMap<u16, (RespSpec, u64)>, log: Vec<LogEntry>, honest: bool, t0: tokio::time::Instant,
+    /// (true, id, ms) = request `id` started its lookup, (false, id, _) = upstream's answer to it arrived
+    order: Vec<(bool, u16, u64)> }
 
 #[derive(Clone)]
 struct Mock(Arc<Mutex<MockState>>);
@@ -275,6 +286,7 @@ impl GetResponse for MockReq {
             let resp = build_response(&msg, &q, &spec, honest);
             let mut st = self.mock.0.lock().unwrap();
             let t_ms = (tokio::time::Instant::now() - st.t0).as_millis() as u64;
+            st.order.push((false, msg.header().id(), t_ms));
             st.log.push(LogEntry { q, req_id: msg.header().id(), t_ms, resp: render(&resp), raw: resp.as_ref().ok().map(|m| m.as_octets().clone()), delay_ms: delay });
             resp
         })
@@ -338,27 +350,42 @@ async fn run_concurrent(cfg: Cfg, evs: Vec<Ev>, batches: Vec<usize>, trace: Arc<
             let qobs = observe_query(&reqmsg.to_message().unwrap());
             reqs.push((*j, qobs, conn.send_request(reqmsg)));
         }
+        let mref = &mock;
         let results = futures_util::future::join_all(reqs.iter_mut().map(|(j, q, r)| { let (j, q) = (*j, q.clone()); async move {
+            { let mut st = mref.0.lock().unwrap(); let now = (tokio::time::Instant::now() - t0).as_millis() as u64; st.order.push((true, 1000 + j as u16, now)); }
             let res = r.get_response().await;
             (j, q, res, (tokio::time::Instant::now() - t0).as_millis() as u64)
         }})).await;
-        let st = mock.0.lock().unwrap();
+        let mut st = mock.0.lock().unwrap();
         let mut tr = trace.lock().unwrap();
-        for (j, qobs, res, done_ms) in results {
-            if let Some(le) = st.log.iter().find(|le| le.req_id == 1000 + j as u16) {
-                let same = match (&res, &le.raw, &le.resp) {
+        let results: HashMap<u16, (QObs, Result<Message<Bytes>, Error>, u64)> = results.into_iter().map(|(j, q, r, d)| (1000 + j as u16, (q, r, d))).collect();
+        let order = std::mem::take(&mut st.order);
+        for (is_start, id, ms) in order {
+            let j = (id - 1000) as usize;
+            let (qobs, res, done_ms) = &results[&id];
+            let le = st.log.iter().find(|le| le.req_id == id);
+            if is_start {
+                tr.words.push(format!("s {} {} {} {} {} {} {}", NAMES[evs[j].q.name].1, evs[j].q.name + 1, evs[j].q.class, evs[j].q.rtype, qflags(&evs[j].q), evs[j].q.opcode, ms));
+                if le.is_some() { tr.obs.push("P".into()); } else {
+                    let r = render(res);
+                    tr.obs.push(format!("S {}", resp_obs(&r)));
+                    tr.nserved += 1;
+                    tr.served.push(Served { q: qobs.clone(), now_ms: *done_ms, resp: r, log_len: st.log.len() });
+                }
+            } else {
+                let le = le.unwrap();
+                let same = match (res, &le.raw, &le.resp) {
                     (Ok(m), Some(raw), _) => m.as_slice() == raw.as_ref(),
                     (Err(e), None, RResp::Err(c)) => err_code(e) == *c,
-                    (Err(e), Some(_), RResp::Msg(um)) => um.broken && err_code(e) == 20,
                     _ => false,
                 };
-                tr.obs.push("F".into());
-                if !same { tr.altered.push(format!("event {}", j)); }
-            } else {
-                let r = render(&res);
-                tr.obs.push(format!("S {}", resp_obs(&r)));
-                tr.nserved += 1;
-                tr.served.push(Served { q: qobs, now_ms: done_ms, resp: r, log_len: st.log.len() });
+                let fe = matches!((res, &le.resp), (Err(e), RResp::Msg(um)) if um.broken && err_code(e) == 20);
+                if !same && !fe { tr.altered.push(format!("event {}", j)); }
+                if le.q.cacheable() {
+                    tr.words.push(format!("f {} {} {} {} {} {}", le.q.name, le.q.class, le.q.rtype,
+                        le.q.rd as u32 | (le.q.cd as u32) << 1 | (le.q.ad as u32) << 2 | (le.q.do_ as u32) << 3, ms, resp_case(&le.resp)));
+                    tr.obs.push(if fe { "FE20".into() } else { "F".into() });
+                }
             }
         }
     }
@@ -370,17 +397,20 @@ async fn run_history(cfg: Cfg, evs: Vec<Ev>, trace: Arc<Mutex<Trace>>, mock: Moc
     let conn = make_conn(&cfg, &mock);
     for (i, ev) in evs.iter().enumerate() {
         if ev.gap_ms > 0 { tokio::time::advance(Duration::from_millis(ev.gap_ms)).await; }
+        let reqmsg = build_query(&ev.q, 1000 + i as u16);
+        let qobs = observe_query(&reqmsg.to_message().unwrap());
+        // the request object may be created well before it is awaited: what counts (age of
+        // entries, expiry) is the time at which get_response() runs
+        let mut req = conn.send_request(reqmsg);
+        if ev.hold_ms > 0 { tokio::time::advance(Duration::from_millis(ev.hold_ms)).await; }
         let now_ms = (tokio::time::Instant::now() - t0).as_millis() as u64;
-        let qw = format!("q {} {} {} {} {} {}", NAMES[ev.q.name].1, ev.q.class, ev.q.rtype, qflags(&ev.q), ev.q.opcode, now_ms);
+        let qw = format!("q {} {} {} {} {} {} {}", NAMES[ev.q.name].1, ev.q.name + 1, ev.q.class, ev.q.rtype, qflags(&ev.q), ev.q.opcode, now_ms);
         let before = {
             let mut st = mock.0.lock().unwrap();
             st.next.insert(1000 + i as u16, (ev.resp.clone(), ev.delay_ms));
             st.log.len()
         };
         trace.lock().unwrap().cur = Some((qw.clone(), before));
-        let reqmsg = build_query(&ev.q, 1000 + i as u16);
-        let qobs = observe_query(&reqmsg.to_message().unwrap());
-        let mut req = conn.send_request(reqmsg);
         let res = req.get_response().await;
         drop(req);
         let st = mock.0.lock().unwrap();
@@ -692,7 +722,11 @@ fn gen_history(r: &mut Rng, cfg: &Cfg, len: usize) -> Vec<Ev> {
             rd: r.chance(1, 2), cd: r.chance(1, 8), ad: r.chance(1, 3), do_: r.chance(1, 3), opcode };
         let resp = gen_resp(r, &q, &ttls, &mut ser);
         let delay = if r.chance(1, 6) { *r.pick(&[1u64, 400, 1000, 1500]) } else { 0 };
-        evs.push(Ev { gap_ms: gap, q, resp, delay_ms: delay });
+        // 1 in 5 requests is created first and awaited after the clock has moved on to (around) an expiry mark
+        let hold = if r.chance(1, 5) { let m = *r.pick(&marks); match r.below(4) { 0 => m.saturating_sub(since + 1), 1 => m.saturating_sub(since), 2 => m + 1, _ => *r.pick(&[1u64, 999, 1000, 30_000, 70_000]) } } else { 0 };
+        let hold = hold.min(20_000_000_000);
+        if hold > 0 { since += hold; }
+        evs.push(Ev { gap_ms: gap, q, resp, delay_ms: delay, hold_ms: hold });
     }
     evs
 }
@@ -707,7 +741,8 @@ fn msg(rcode: u8, ad: bool, tc: bool, recs: Vec<RecSpec>) -> RespSpec { RespSpec
 /// fixed boundary / regression histories
 fn corpus() -> Vec<(Cfg, Vec<Ev>)> {
     let dflt = Cfg { raw: [604800, 30, 30, 3600, 3600, 1_000_000], trunc: false, entries: None, honest: true, dflt: true };
-    let ev = |gap: u64, q: QSpec, resp: RespSpec| Ev { gap_ms: gap, q, resp, delay_ms: 0 };
+    let ev = |gap: u64, q: QSpec, resp: RespSpec| Ev { gap_ms: gap, q, resp, delay_ms: 0, hold_ms: 0 };
+    let held = |gap: u64, hold: u64, q: QSpec, resp: RespSpec| Ev { gap_ms: gap, q, resp, delay_ms: 0, hold_ms: hold };
     let none = RespSpec::Err(4);
     let mut v = vec![];
     // exact expiry: served at elapsed == ttl (TTL 0), forwarded one ms later
@@ -772,6 +807,14 @@ fn corpus() -> Vec<(Cfg, Vec<Ev>)> {
     v.push((dflt.clone(), vec![
         ev(0, qs(0, 1, 1), RespSpec::Msg { rcode: 0, aa: false, tc: false, ad: false, noq: false, recs: vec![a_rec(0, 1, 600, false, 1)], broken: false, ext: Some(16), opt_data: true }),
         ev(30_000, qs(0, 1, 0), none.clone()), ev(1, qs(0, 1, 1), none.clone())]));
+    // requests created early and awaited late: TTL 100 fetched at t=0; created at t=10 s and awaited at t=70 s -> TTL 30;
+    // created at t=90 s (entry still fresh) and awaited at t=200 s -> stale, goes upstream; created at 200 s, awaited exactly at expiry
+    v.push((dflt.clone(), vec![
+        ev(0, qs(0, 1, 1), msg(0, false, false, vec![a_rec(0, 1, 100, false, 1)])),
+        held(10_000, 60_000, qs(0, 1, 1), none.clone()),
+        held(20_000, 110_000, qs(0, 1, 1), msg(0, false, false, vec![a_rec(0, 1, 100, false, 2)])),
+        held(0, 100_000, qs(0, 1, 0), none.clone()),
+        held(0, 1, qs(0, 1, 0), msg(0, false, false, vec![a_rec(0, 1, 50, false, 3)]))]));
     // zero TTL, weird NOERROR, OPT in the additional section is not aged
     v.push((dflt.clone(), vec![
         ev(0, qs(0, 1, 1), msg(0, false, false, vec![a_rec(0, 1, 0, false, 1)])), ev(0, qs(0, 1, 1), msg(0, false, false, vec![])),
@@ -787,7 +830,7 @@ fn execute(cfg: &Cfg, evs: &[Ev]) -> (Trace, Vec<LogEntry>, bool) { execute_with
 fn execute_with(cfg: &Cfg, evs: &[Ev], batches: Option<Vec<usize>>) -> (Trace, Vec<LogEntry>, bool) {
     let trace = Arc::new(Mutex::new(Trace::default()));
     let rt = tokio::runtime::Builder::new_current_thread().enable_time().start_paused(true).build().unwrap();
-    let mock = Mock(Arc::new(Mutex::new(MockState { next: HashMap::new(), log: vec![], honest: cfg.honest, t0: rt.block_on(async { tokio::time::Instant::now() }) })));
+    let mock = Mock(Arc::new(Mutex::new(MockState { next: HashMap::new(), order: vec![], log: vec![], honest: cfg.honest, t0: rt.block_on(async { tokio::time::Instant::now() }) })));
     let (c2, e2, t2, m2) = (cfg.clone(), evs.to_vec(), trace.clone(), mock.clone());
     let res = catch_mut(move || match batches { None => rt.block_on(run_history(c2, e2, t2, m2)), Some(b) => rt.block_on(run_concurrent(c2, e2, b, t2, m2)) });
     let log = match mock.0.lock() { Ok(g) => g.log.clone(), Err(p) => p.into_inner().log.clone() };
@@ -867,6 +910,30 @@ fn main() {
     // requests in flight at the same time on one Connection (oracle only)
     let n_conc = if a.thorough { 6_000 } else { 500 } * a.scale;
     let (mut conc_served, mut conc_double) = (0u64, 0u64);
+    {
+        // fixed scenario: two identical requests in flight together (answers after 400 and 1000 ms) and a
+        // third one later.  Exact expectation: no single-flight (both reach upstream), both answers are
+        // inserted, the later insert wins, so the third request is served the second answer, aged from
+        // the moment that answer arrived.
+        let dflt = Cfg { raw: [604800, 30, 30, 3600, 3600, 1_000_000], trunc: false, entries: None, honest: true, dflt: true };
+        let evs = vec![
+            Ev { gap_ms: 0, q: qs(0, 1, 1), resp: msg(0, false, false, vec![a_rec(0, 1, 60, false, 1)]), delay_ms: 400, hold_ms: 0 },
+            Ev { gap_ms: 0, q: qs(0, 1, 1), resp: msg(0, false, false, vec![a_rec(0, 1, 90, false, 2)]), delay_ms: 1000, hold_ms: 0 },
+            Ev { gap_ms: 2000, q: qs(2, 1, 1), resp: RespSpec::Err(4), delay_ms: 0, hold_ms: 0 }];
+        idx += 1;
+        if out.wants(idx) {
+            out.begin("concurrent fixed");
+            let (tr, log, panicked) = execute_with(&dflt, &evs, Some(vec![2, 1]));
+            let case = case_line(&dflt, &tr);
+            let obs = tr.obs.join(" | ");
+            if panicked { out.oracle_case(&case, false, "concurrent_panic"); } else { out.case(&case, &obs, true, "concurrent"); }
+            out.check(!panicked, panic_class(&log), &case, "panic while running the history");
+            oracle(&mut out, &case, &dflt, &tr, &log);
+            let ok = log.len() == 2 && tr.obs.len() == 5 && tr.obs[..4] == ["P", "P", "F", "F"]
+                && tr.served.len() == 1 && matches!(&tr.served[0].resp, RResp::Msg(m) if m.id == 1001 && m.qcase == 3 && m.secs[0].len() == 1 && m.secs[0][0].ttl == 88);
+            out.check(ok, "concurrent_expectation", &case, &format!("expected P | P | F | F | S <second answer, TTL 88, asked spelling>, saw {}", obs));
+        }
+    }
     for _ in 0..n_conc {
         let k = r.below(3);
         let cfg = gen_cfg(&mut r, k);
@@ -888,8 +955,8 @@ fn main() {
         let label = format!("concurrent#{} seed={}", idx, a.seed);
         out.begin(&label);
         let (tr, log, panicked) = execute_with(&cfg, &evs, Some(batches.clone()));
-        let case = format!("{} batches={:?} obs={}", label, batches, tr.obs.join(","));
-        out.oracle_case(&case, tr.nserved > 0, "concurrent");
+        let case = case_line(&cfg, &tr);
+        if panicked { out.oracle_case(&case, false, "concurrent_panic"); } else { out.case(&case, &tr.obs.join(" | "), tr.nserved > 0, "concurrent"); }
         out.check(!panicked, panic_class(&log), &case, "panic while running the history");
         oracle(&mut out, &case, &cfg, &tr, &log);
         conc_served += tr.nserved as u64;
